@@ -243,7 +243,31 @@ fn mutate_in_place(r: &mut Rng, s: &mut Schema, depth: u32) -> Option<&'static s
             }
         }
         Schema::Vector(inner, _) | Schema::SchemaOption(inner) | Schema::Boxed(inner) | Schema::Slice(inner) | Schema::Reference(inner) => {
-            mutate_in_place(r, inner, depth + 1)
+            if descend || r.chance(1, 2) {
+                return mutate_in_place(r, inner, depth + 1);
+            }
+            // the wrapper itself: another kind of wrapper around the same content, or none
+            let content = (**inner).clone();
+            let me = match s {
+                Schema::Vector(..) => 0,
+                Schema::SchemaOption(..) => 1,
+                Schema::Boxed(..) => 2,
+                Schema::Slice(..) => 3,
+                _ => 4,
+            };
+            let mut k = r.below(6);
+            if k == me {
+                k = 5;
+            }
+            *s = match k {
+                0 => Schema::Vector(Box::new(content), VecOrStringLayout::Unknown),
+                1 => Schema::SchemaOption(Box::new(content)),
+                2 => Schema::Boxed(Box::new(content)),
+                3 => Schema::Slice(Box::new(content)),
+                4 => Schema::Reference(Box::new(content)),
+                _ => content,
+            };
+            Some(if k == 5 { "wrapper-removed" } else { "wrapper-kind" })
         }
         Schema::Array(a) => {
             if descend {
